@@ -55,9 +55,9 @@ package http
 // object of this store; the lock numbering ghost cannot be established by a constructor, so it stays trusted).
 
 // SubscribeChangeSet / SubscribeEvents return a subscriber (checked).
-//@ func (s *litefs.Store) SubscribeChangeSet [C20]
+//@ func (s *litefs.Store) SubscribeChangeSet [C20,C14]
 //@   requires  s != nil
-//@   ensures   result != nil
+//@   ensures   result != nil && result.dirtySet != nil && result.store == s && result.nodeID == nodeID
 //@ func (s *litefs.Store) SubscribeEvents [C20]
 //@   requires  s != nil
 //@   ensures   result != nil
